@@ -50,7 +50,7 @@ def updateEdge (es : List Edge) (src dst : Nat) (g : Grapheme) : List Edge :=
 def findNext (g : Grapheme) : List Edge → Option (Nat × Option Grapheme)
   | [] => none
   | e :: rest =>
-    if e.label.value ≠ g.value then findNext g rest
+    if e.label.chars ≠ g.chars then findNext g rest
     else if e.label.max = g.max - 1 then
       some (e.dst, some (Grapheme.mk g.chars [] (Nat.min e.label.min g.min) (Nat.max e.label.max g.max)))
     else if e.label.max = g.max then some (e.dst, none)
@@ -87,7 +87,7 @@ def insertSorted (x : Nat) : List Nat → List Nat
 def parentStates (d : Dfa) (a : Block) (label : Grapheme) : Block :=
   a.foldl (fun x s =>
     match (d.inEdges s).find? (fun e =>
-        e.label.value = label.value && (e.label.max == label.max || e.label.min == label.min)) with
+        e.label.chars = label.chars && (e.label.max == label.max || e.label.min == label.min)) with
     | some e => insertSorted e.src x
     | none => x) []
 
